@@ -170,7 +170,7 @@ static int in_hashed(const node *n) {
 /* ------------------------------------------------------------------ operators */
 enum {
 	OP_DEL, OP_DUP, OP_DUPN, OP_SWAP, OP_FIRST, OP_LAST, OP_RETAG, OP_FLAGS, OP_SHRINK, OP_GROW,
-	OP_INS_C, OP_INS_CF, OP_INS_N, OP_INS_NF, OP_AFT_N, OP_VAL, OP_ADD
+	OP_INS_C, OP_INS_CF, OP_INS_N, OP_INS_NF, OP_AFT_N, OP_VAL, OP_ADD, OP_INS_FOREIGN
 };
 /* library of valid sample elements harvested from the base objects: one per (container, table entry) */
 #define MAXEL 16
@@ -336,6 +336,16 @@ static int ops_for(const node *n, int root, opdesc *o, int reduced) {
 		ADD(OP_INS_N, 0, 0, "insN");
 		if (!reduced) ADD(OP_INS_NF, 0, 0, "insNF");
 		if (!reduced || idx == last) ADD(OP_AFT_N, 0, 0, "aftN");
+		/* tags that other containers of the schema define but this one does not (e.g. elements of the other PDU version): here they
+		 * are unknown elements; inserted as critical ones before the first child only */
+		if (!reduced && idx == 0) {
+			unsigned t;
+			for (t = 0x01; t <= 0x1f; t++) {
+				int known = 0;
+				for (i = 0; i < nt; i++) if (tags[i] == t) known = 1;
+				if (!known && t != UNK_TAG) ADD(OP_INS_FOREIGN, t, 0, "insX%x", t);
+			}
+		}
 		/* schema-aware construction: add a valid sample of every element of the container's alphabet after this one */
 		if (!reduced) for (i = 0; i < nt; i++) {
 			int si = sample_index(n->parent->cont, tags[i]);
@@ -380,6 +390,7 @@ static int op_apply(node *n, const opdesc *op) {
 		}
 		case OP_INS_C: kid_insert(p, idx, mk_unknown(0, 0)); return 0;
 		case OP_INS_CF: kid_insert(p, idx, mk_unknown(0, 1)); return 0;
+		case OP_INS_FOREIGN: { node *u = mk_unknown(0, 0); u->tag = op->arg; kid_insert(p, idx, u); return 0; }
 		case OP_INS_N: kid_insert(p, idx, mk_unknown(1, 0)); return 0;
 		case OP_INS_NF: kid_insert(p, idx, mk_unknown(1, 1)); return 0;
 		case OP_AFT_N: kid_insert(p, idx + 1, mk_unknown(1, 0)); return 0;
